@@ -158,7 +158,7 @@ void run_case(Tape& t, Stats& st) {
 		if (st.want_sample()) st.sample("{\"a\":" + jstr(a) + ",\"b\":" + jstr(b) + ",\"c\":" + jstr(c) + "}");
 		break; }
 	case 2: { // name lists for the sort laws
-		std::vector<std::string> names; unsigned n = unsigned(t.below(14));
+		std::vector<std::string> names; unsigned n = unsigned(t.below(14)); if (t.below(6) == 0) n = 17 + unsigned(t.below(110));   // beyond the insertion-sort range of std::sort
 		for (unsigned i = 0; i < n; ++i) { if (!names.empty() && t.below(3) == 0) names.push_back(case_variant(names[t.below(names.size())], t.u64())); else names.push_back(gen_string(t, 10)); }
 		sort_law(names, st);
 		if (st.want_sample()) { std::string s = "{\"sort\":["; for (size_t i = 0; i < names.size(); ++i) s += (i ? "," : "") + jstr(names[i]); st.sample(s + "]}"); }
